@@ -8,6 +8,8 @@ greenlet.
 Author : Shunning Jiang
 Date   : May 20, 2019
 """
+from collections import defaultdict
+
 from greenlet import greenlet
 
 from pymtl3.dsl.errors import UpblkCyclicError
@@ -70,6 +72,13 @@ class WrapGreenletPass( BasePass ):
 
       new_constraints.add( (x, y) )
 
+    # The signals that induce an edge are looked up by the new pair
+    new_constraint_objs = defaultdict(set)
+    for (x, y), objs in top._dag.constraint_objs.items():
+      new_constraint_objs[ ( blk_greenlet_mapping.get( x, x ),
+                             blk_greenlet_mapping.get( y, y ) ) ] |= objs
+
     top._dag.final_upblks    = new_upblks
     top._dag.all_constraints = new_constraints
+    top._dag.constraint_objs = new_constraint_objs
     top._dag.blk_greenlet_mapping = blk_greenlet_mapping
